@@ -69,6 +69,15 @@ def replay_pivots(ctx, pdrv, c, r):
     u = c.get("thresh", 1.0)
     for g, (piv, usepr_out, sing, rec) in zip(got, exp):
         ptr, row, up, sg = int(g[0]), int(g[1]), int(g[2]), int(g[3])
+        if not sing and sg == sing and c.get("nprocs", 1) > 1 and rec["usepr"] == 1 and usepr_out == 0 and up == 1:
+            # options->usepr is ONE flag shared by all workers: another worker may drop pivot reuse between this worker's entry into
+            # the search (where the hook read the flag) and its decision.  The implementation then decides as without reuse, which
+            # the property allows (the old pivot is only tried); the model must agree with THAT decision.
+            alt = lines[got.index(g)].split(); alt[0] = "0"
+            rc2, out2, _ = vf.sh2([pdrv], inp=" ".join(alt) + "\n", timeout=60)
+            g2 = out2.split()
+            if rc2 == 0 and len(g2) >= 4 and int(g2[1]) == piv and int(g2[2]) == 0 and int(g2[3]) == 0:
+                continue
         if sg != sing or (not sing and (row != piv or up != usepr_out)):
             return ("pivot search of column %d: implementation chose row %d (usepr %d, singular %d), model chose row %d "
                     "(usepr %d, singular %d)" % (rec["j"], piv, usepr_out, sing, row, up, sg)), 0
